@@ -57,6 +57,10 @@ func backSlice(v ssa.Value, followArgs bool, visit func(ssa.Value)) {
 					walk(a.X)
 					return
 				case *ssa.IndexAddr:
+					if !seen[a] {
+						seen[a] = true
+						visit(a) // the element address itself (which slice, which index)
+					}
 					walk(a.X)
 					walk(a.Index)
 					return
